@@ -264,3 +264,24 @@ package nodes
 //@   ensures nullkey.outer: (forall(j, 0, len(keyExprs), evalErr(keyExprs[j], ctx) == nil)) && (exists(j, 0, len(keyExprs), evalVal(keyExprs[j], ctx).TypeID == 0)) && ((s.isOuterLeft && amLeft) || (s.isOuterRight && !amLeft)) ==> len(OUT) == old(len(OUT)) + 1 && lastOut().Retraction == record.Retraction && lastOut().EventTime == record.EventTime && len(lastOut().Values) == s.leftFieldCount + s.rightFieldCount
 //@   ensures nullkey.left: (forall(j, 0, len(keyExprs), evalErr(keyExprs[j], ctx) == nil)) && (exists(j, 0, len(keyExprs), evalVal(keyExprs[j], ctx).TypeID == 0)) && s.isOuterLeft && amLeft ==> forall(q, 0, s.leftFieldCount, same(lastOut().Values[q], record.Values[q])) && forall(q, s.leftFieldCount, s.leftFieldCount + s.rightFieldCount, lastOut().Values[q].TypeID == 0)
 //@   ensures nullkey.right: (forall(j, 0, len(keyExprs), evalErr(keyExprs[j], ctx) == nil)) && (exists(j, 0, len(keyExprs), evalVal(keyExprs[j], ctx).TypeID == 0)) && !(s.isOuterLeft && amLeft) && s.isOuterRight && !amLeft ==> forall(q, 0, s.rightFieldCount, same(lastOut().Values[s.leftFieldCount + q], record.Values[q])) && forall(q, 0, s.leftFieldCount, lastOut().Values[q].TypeID == 0)
+
+// C15/C06/C18 Map (projection), eventwise for every history: each input record yields exactly one output record whose
+// i-th value is the i-th expression evaluated in the record's context, with the record's own retraction flag and event
+// time (so a retraction retracts exactly the row its addition produced: Expression.Evaluate is deterministic);
+// metadata is forwarded one for one, unchanged; expression, produce and source errors are returned.
+//@ func (*Map).Run
+//@   stream 1 invariant one: len(OUT) == len(IN) && len(OUTM) == len(INM)
+//@   stream 1 step IN projected: stepErr == nil ==> len(OUT) == old(len(OUT)) + 1 && lastOut().Retraction == lastIn().Retraction && lastOut().EventTime == lastIn().EventTime && len(lastOut().Values) == len(m.exprs) && forall(j, 0, len(m.exprs), same(lastOut().Values[j], evalVal(m.exprs[j], L1_ctx)))
+//@   stream 1 step IN exprerror: (exists(j, 0, len(m.exprs), evalErr(m.exprs[j], L1_ctx) != nil)) ==> stepErr != nil
+//@   stream 1 step INM forward: len(OUTM) == old(len(OUTM)) + 1 && lastOutM() == lastInM() && len(OUT) == old(len(OUT))
+//@   ensures errprop: runErr != nil ==> result != nil
+//@ func (*Map).Run$lit1
+//@   loop 1 invariant values: len(values) == len(m.exprs) && forall(j, 0, $k, evalErr(m.exprs[j], ctx) == nil && same(values[j], evalVal(m.exprs[j], ctx)))
+
+// C15 Unnest, eventwise: a record whose unnested column holds a list of n elements yields n records, in list order,
+// each equal to the input record with that column replaced by the element; flags and event time are the record's.
+//@ func (*Unnest).Run$lit1
+//@   requires index: u != nil && 0 <= u.index && u.index < len(record.Values)
+//@   loop 1 invariant emitted: 0 <= $k && $k <= len(list) && len(OUT) == old(len(OUT)) + $k && !produceFailed()
+//@   loop 1 step element: len(OUT) == old(len(OUT)) + 1 && lastOut().Retraction == record.Retraction && lastOut().EventTime == record.EventTime && len(lastOut().Values) == len(record.Values) && same(lastOut().Values[u.index], list[i]) && forall(q, 0, len(record.Values), q != u.index ==> same(lastOut().Values[q], record.Values[q]))
+//@   ensures count: result == nil ==> len(OUT) == old(len(OUT)) + len(record.Values[u.index].List)
